@@ -47,6 +47,13 @@ CHECKS = {
         note="Runtimes covered are listed in evidence coverage.parts (Python now; C LE/BE and -O generator, Go as the engines land).",
         design="6/C14",
     ),
+    "C08": dict(
+        category="other",
+        technique="bounded symbolic execution of the real lexer/parser/validators under z3-Int proxies (token templates), all paths, accept <=> constraint predicate",
+        text="Token templates (real Lexer on concrete text, designated literal/width tokens replaced by z3 integers) are run through the real ply parser and AST validators along every feasible path; per path z3 proves accepted <=> the documented-constraint predicate for all hole values, that only ParserError escapes and that it cites the offending file and line; one witness per path is re-parsed by the real compiler under normal builtins.",
+        note="Bounded by the template catalogue (numeric rules at top level, nested 1-2 deep, via alias, via imported file; value-independent rules as concrete templates, marked so). CLI exit status / absence of output files are observed only when replaying violations.",
+        design="6/C08",
+    ),
 }
 
 NOT_APPLICABLE = {
@@ -90,7 +97,7 @@ def main():
             "add_only": True,
         },
         "engines": [
-            {"name": "pysym", "path": "vlib/pysym.py", "serves_properties": ["C01", "C02", "C05", "C07", "C12", "C14"], "kind_free_text": "DART-style symbolic execution of the real Python sources with z3 proxies (BV-192 / Int)"},
+            {"name": "pysym", "path": "vlib/pysym.py", "serves_properties": ["C01", "C02", "C05", "C07", "C08", "C12", "C14"], "kind_free_text": "DART-style symbolic execution of the real Python sources with z3 proxies (BV-192 / Int)"},
         ],
         "checks": checks,
         "not_applicable": na,
